@@ -6,6 +6,7 @@ export GOFLAGS=-mod=mod GOPROXY=off GOSUMDB=off GOTOOLCHAIN=local
 mkdir -p bin evidence replays lean/GoDebian/Extracted
 ( cd harness && go build -tags verif -o ../bin/vcheck ./cmd/vcheck )
 bin/vcheck --extract >/dev/null
+tools/gen_root.sh
 ( cd lean && lake build GoDebian driver )
 ( cd lean && lake build $(ls GoDebian/Props/*.lean GoDebian/Tie/*.lean 2>/dev/null | sed 's/\.lean$//; s#/#.#g') )
 echo setup done
